@@ -43,24 +43,6 @@ def spec_peak(drv, c):
     return [Fraction(p, q) for p, q in rep]
 
 
-def nest_peak_req(case):
-    """A single-Einsum nestlib case (no Tolls) as input of the reference `peak`."""
-    wl, arch = case["workload"], case["arch"]
-    nt = len(wl["tensors"])
-    bits = []
-    for lv in arch["levels"]:
-        ov = {t: b for t, b in lv["bpv"]}
-        bits.append([ov.get(t, wl["tensors"][t]["bpv"]) for t in range(nt)])
-    pre = []
-    for k, nd in enumerate(case["mapping"]):
-        if nd[0] == "S":
-            pre.append(["S", k + 1, nd[1], list(nd[2]), False])
-        elif nd[0] == "L":
-            pre.append(["L", k + 1, nd[1], nd[2]])
-    w = {"bounds": wl["bounds"], "einsums": [list(range(nt))], "tensorRvs": [t["rvs"] for t in wl["tensors"]], "bits": bits, "ninst": 1}
-    return {"op": "peak", "workload": w, "tree": {"pre": pre, "e": 0}, "levels": len(arch["levels"])}
-
-
 def pow2(n):
     return n > 0 and n & (n - 1) == 0
 
@@ -139,7 +121,7 @@ def run(ctx: Ctx):
         "intermediates at any level below the shared loops, further prefix holders, flat or once-nested Sequential, branches with "
         "holders of every tensor at any subset of levels in any order, below loops, merged into multi-tensor nodes; n_instances "
         "1-3. Streams: fused (must agree exactly), oversubscription (sizes around the peak), shared-not-fused (directed at the "
-        "known finding), single-nest-model-vs-reference (Lean analytic.memBits = Lean peak on single-Einsum nests of the C05 generator, "
+        "known finding), single-nest-model-vs-reference (instances of the unproved half of the single-Einsum statement, AFV.C06.PeakSingleStatement, on nests of the C05 generator, "
         "no Tolls), mapper-returned mappings. non-trivial = at least two Einsums and a holder below a shared loop or a "
         "nested Sequential"
     )
@@ -233,22 +215,19 @@ def run(ctx: Ctx):
     bad_nest = 0
     for i in range(n_nest):
         case = NL.gen_case(rng, exact=True, small=(i % 3 != 0), toll_prob=0.0)
-        rep = drv.ask("C05", NL.driver_req(case, "eval"))
-        if "err" in rep or not rep.get("wf"):
+        rep = drv.ask("C06", NL.driver_req(case, "peaksingle"))
+        if "err" in rep:
+            raise RuntimeError(f"driver: {rep}")
+        if not (rep["wf"] and rep["notoll"]):
             ctx.dist("nest-model-skipped")
             continue
-        an = {l: NL.q2frac(v) for l, v in rep["analytic"]["memBits"]}
-        pk = drv.ask("C06", nest_peak_req(case))
-        if isinstance(pk, dict):
-            raise RuntimeError(f"driver: {pk}")
-        pk = [Fraction(p, q) for p, q in pk]
         ctx.case({"nest": case["mapping"], "bounds": case["workload"]["bounds"]}, nontrivial=False, branches=["single-nest-model-vs-reference"])
         ctx.dist("single-nest-model-vs-reference")
-        if any(an.get(l, 0) != pk[l] for l in range(len(pk))):
+        if not rep["holds"]:
             bad_nest += 1
             if bad_nest == 1:
-                ctx.broken("the Lean model of run_model's reservations (analytic.memBits) and the reference peak disagree on a single-Einsum nest",
-                           {"case": case, "analytic_memBits": {str(k): str(v) for k, v in an.items()}, "peak": [str(x) for x in pk]})
+                ctx.broken("an instance of AFV.C06.PeakSingleStatement is false: the Lean model of run_model's reservations (analytic.memBits) "
+                           "and the reference peak disagree on a single-Einsum nest", {"case": case})
 
     # mapper-returned mappings
     try:
